@@ -156,7 +156,7 @@ func runPackedTag(rc *RuleCtx) {
 func init() {
 	register(&Rule{
 		Name:     "HASHTHRESH",
-		Doc:      "the readers of the open-addressed child table agree with its writer about WHEN there is one: scanChildren stores a map's children by hash only when the entry count exceeds StoreChildrenByIntHashShreshold, so every probe (getStrHash / getIntHash) is control-dependent on a comparison with that same constant. Probing the 2n slots of a small, sequentially stored map reads the n slots beyond len(Next): on a re-used tree they hold the previous load's children, which are handed out as children of this map, and when all 2n are occupied the probe never meets an empty slot and never returns",
+		Doc:      "the readers of the open-addressed child table agree with its writer about WHEN there is one: scanChildren stores a map's children by hash only when the entry count exceeds StoreChildrenByIntHashShreshold, so every probe (getStrHash / getIntHash) is control-dependent on a comparison with that same constant, and on `len(self.Next) >= N` — the loader makes the table the first N children, so a slot array that was truncated (replaced value, lazy re-load) or filled sequentially is never taken for a table; a test of cap(Next) instead admits the stale slots beyond len. Probing the 2n slots of a small, sequentially stored map reads the n slots beyond len(Next): on a re-used tree they hold the previous load's children, which are handed out as children of this map, and when all 2n are occupied the probe never meets an empty slot and never returns",
 		Configs:  "NP",
 		Floor:    map[string]int{"N": 4, "P": 4},
 		Controls: 1,
@@ -189,6 +189,7 @@ func runHashThresh(rc *RuleCtx) {
 				}
 				rc.Examined++
 				good := false
+				lenBound, capBound := false, false
 				for _, cd := range controllingIfs(b) {
 					k, _ := condKey(cd.cond)
 					bo, ok := k.(*ssa.BinOp)
@@ -201,6 +202,20 @@ func runHashThresh(rc *RuleCtx) {
 						continue
 					}
 					for _, op := range []ssa.Value{bo.X, bo.Y} {
+						if a, ok := builtinCallOf(op, "len"); ok {
+							if u, ok := a.(*ssa.UnOp); ok {
+								if _, fnm, ok := fieldNameOf(u.X); ok && fnm == "Next" {
+									lenBound = true
+								}
+							}
+						}
+						if a, ok := builtinCallOf(op, "cap"); ok {
+							if u, ok := a.(*ssa.UnOp); ok {
+								if _, fnm, ok := fieldNameOf(u.X); ok && fnm == "Next" {
+									capBound = true
+								}
+							}
+						}
 						if v, ok := constInt(op); ok && thr >= 0 && v == thr {
 							good = true
 						}
@@ -211,6 +226,12 @@ func runHashThresh(rc *RuleCtx) {
 							}
 						}
 					}
+				}
+				if good && n != "zzControlNever" {
+					// second clause: the table is the first N children — the probe is bounded by len(Next), never by cap(Next)
+					rc.verdict(lenBound && !capBound, fn, n+" within len(Next)", c.Pos(), map[bool]string{
+						true:  "the probe inspects only slots below len(Next)",
+						false: "the probe is admitted by cap(Next) (or by no test of Next at all): slots between len and cap belong to whatever used the array before — a replaced or lazily re-loaded child map hands out the previous value's children"}[lenBound && !capBound], true)
 				}
 				rc.verdict(good, fn, n, c.Pos(), map[bool]string{
 					true:  "the probe runs only for a map above the writer's threshold",
@@ -227,7 +248,7 @@ func runHashThresh(rc *RuleCtx) {
 func init() {
 	register(&Rule{
 		Name:     "SIGNEDBYTE",
-		Doc:      "a thrift byte (i8) is signed: a value read with (*thrift.BinaryProtocol).ReadByte is widened to a larger integer only through int8, unless the widening is under the true edge of a ByteAsUint8 / byteAsUint8 test. ReadInt(I08) and the map iterator widened the raw uint8, so a map<i8,…> key -1 was 255 to ReadAny, GetByInt and SetByInt (which appended a duplicate key), and the string forms of an i8 (http header, api.js_conv) printed 255 for -1",
+		Doc:      "a thrift byte (i8) is signed: a value read with (*thrift.BinaryProtocol).ReadByte or (thrift.BinaryEncoding).DecodeByte is widened to a larger integer only through int8, unless the widening is under the true edge of a ByteAsUint8 / byteAsUint8 test. ReadInt(I08) and the map iterator widened the raw uint8, so a map<i8,…> key -1 was 255 to ReadAny, GetByInt and SetByInt (which appended a duplicate key), and the string forms of an i8 (http header, api.js_conv) printed 255 for -1",
 		Configs:  "NP",
 		Floor:    map[string]int{"N": 3, "P": 3},
 		Controls: 1,
@@ -277,12 +298,16 @@ func runSignedByte(rc *RuleCtx) {
 				case types.Int8, types.Uint8:
 					continue
 				}
-				ex, ok := cv.X.(*ssa.Extract)
-				if !ok || ex.Index != 0 {
+				var call *ssa.Call
+				if ex, ok := cv.X.(*ssa.Extract); ok && ex.Index == 0 {
+					call, _ = ex.Tuple.(*ssa.Call)
+				} else if c, ok := cv.X.(*ssa.Call); ok {
+					call = c // (BinaryEncoding).DecodeByte returns the byte alone
+				}
+				if call == nil || call.Call.StaticCallee() == nil || !strings.HasPrefix(pkgRel(call.Call.StaticCallee()), "thrift") {
 					continue
 				}
-				call, ok := ex.Tuple.(*ssa.Call)
-				if !ok || call.Call.StaticCallee() == nil || call.Call.StaticCallee().Name() != "ReadByte" || !strings.HasPrefix(pkgRel(call.Call.StaticCallee()), "thrift") {
+				if n := call.Call.StaticCallee().Name(); n != "ReadByte" && n != "DecodeByte" {
 					continue
 				}
 				rc.Examined++
